@@ -24,8 +24,9 @@ NAN = float("nan")
 UNIVERSE = {
     "int": {"values": [None, 3, 0],
             "ops": [("min", (0,)), ("min", (3,)), ("min", (5,)), ("max", (0,)), ("max", (3,)), ("max", (5,))]},
-    "float": {"values": [None, 1.5, 0.0],
+    "float": {"values": [None, 1.5, 0.0, 0.15, 3.14159],
               "ops": [("min", (0.0,)), ("min", (1.5,)), ("min", (2.0,)), ("max", (0.0,)), ("max", (1.5,)), ("max", (2.0,)),
+                      ("min", (0.15,)), ("min", (0.2,)), ("max", (0.1,)), ("max", (3.14,)), ("min", (3.1416,)),
                       ("precision", (1,)), ("precision", (2,)), ("precision", (0,))]},
     "str": {"values": [None, "ab", ""],
             "ops": [("len", (2,)), ("len", (0,)), ("len", (1, ...)), ("len", (3, ...)), ("len", (..., 2)), ("len", (..., 1)),
